@@ -133,6 +133,8 @@ macro_rules! c02_central_header {
             const NLEN: usize = $nlen;
             const XLEN: usize = $xlen;
             let xb: [u8; XLEN] = kani::any();
+            // caller extra data never carries the ZIP64 header ID (validate_extra_data refuses it)
+            kani::assume(XLEN < 4 || le16(&xb, 0) != 0x0001);
             let file = any_zfd($mk, xb.to_vec());
             let mut sink = Sink::<96>::new();
             let r = write_central_directory_header(&mut sink, &file);
@@ -363,3 +365,473 @@ c01_write_file!(c01_write_file_d2_c1, 2, 1, 1, false, 10);
 /// C01/C02/C08 as above with large_file(true): 20-byte local ZIP64 record, back-patched sizes.
 // @h prop=C01,C02,C08,C18 tier=quick t=1200 mem=16 name=c01_write_file_d2_c1_large
 c01_write_file!(c01_write_file_d2_c1_large, 2, 1, 1, true, 10);
+
+// =============================================================================================
+// Generic APPNOTE judge for small multi-entry archives produced by the writer
+// =============================================================================================
+pub(crate) struct Exp<'a> {
+    pub name: &'a [u8],
+    pub content: &'a [u8],
+    pub local_extra: &'a [u8],
+    pub central_extra: &'a [u8],
+    pub large: bool,
+    pub date: u16,
+    pub time: u16,
+    pub mode: u32,
+    pub encrypted: bool,
+}
+
+/// Judge `b[..end]`: entries laid out back to back from offset `start`, then the central
+/// directory, then the end record with `comment`. For encrypted entries `content` is the stored
+/// (encrypted) byte string and the CRC is not judged here.
+pub(crate) fn judge_archive(b: &[u8], start: usize, end: usize, exp: &[Exp<'_>], comment: &[u8]) {
+    let n = exp.len();
+    let mut off = [0usize; 4];
+    let mut p = start;
+    let mut i = 0;
+    while i < n {
+        let e = &exp[i];
+        off[i] = p;
+        let nlen = e.name.len();
+        let lx = if e.large { 20 } else { 0 };
+        let dlen = e.content.len();
+        assert_eq!(le32(b, p), SIG_LOCAL);
+        let flags = le16(b, p + 6);
+        assert_eq!(flags & 1 != 0, e.encrypted);
+        assert_eq!(flags & (1 << 11) != 0, !name_is_ascii(e.name));
+        assert_eq!(flags & (1 << 3), 0);
+        assert_eq!(le16(b, p + 8), 0);
+        assert_eq!(le16(b, p + 10), e.time);
+        assert_eq!(le16(b, p + 12), e.date);
+        let crc = le32(b, p + 14);
+        if !e.encrypted {
+            assert_eq!(crc, ref_crc32(e.content, dlen));
+        }
+        if e.large {
+            assert_eq!(le32(b, p + 18), 0xFFFF_FFFF);
+            assert_eq!(le32(b, p + 22), 0xFFFF_FFFF);
+            assert_eq!(le16(b, p + 30 + nlen), 1);
+            assert_eq!(le16(b, p + 32 + nlen), 16);
+            assert_eq!(le64(b, p + 42 + nlen), dlen as u64);
+        } else {
+            assert_eq!(le32(b, p + 18), dlen as u32);
+        }
+        assert_eq!(le16(b, p + 26) as usize, nlen);
+        assert_eq!(le16(b, p + 28) as usize, lx + e.local_extra.len());
+        let mut k = 0;
+        while k < nlen {
+            assert_eq!(b[p + 30 + k], e.name[k]);
+            k += 1;
+        }
+        let xat = p + 30 + nlen + lx;
+        let mut k = 0;
+        while k < e.local_extra.len() {
+            assert_eq!(b[xat + k], e.local_extra[k]);
+            k += 1;
+        }
+        let dat = xat + e.local_extra.len();
+        let mut k = 0;
+        while k < dlen {
+            assert_eq!(b[dat + k], e.content[k]);
+            k += 1;
+        }
+        p = dat + dlen;
+        i += 1;
+    }
+    let cd_at = p;
+    let mut i = 0;
+    while i < n {
+        let e = &exp[i];
+        let nlen = e.name.len();
+        let dlen = e.content.len();
+        assert_eq!(le32(b, p), SIG_CENTRAL);
+        assert_eq!(le16(b, p + 4) >> 8, 3);
+        assert_eq!(le16(b, p + 8), le16(b, off[i] + 6));
+        assert_eq!(le16(b, p + 10), 0);
+        assert_eq!(le16(b, p + 12), e.time);
+        assert_eq!(le16(b, p + 14), e.date);
+        assert_eq!(le32(b, p + 16), le32(b, off[i] + 14));
+        assert_eq!(le32(b, p + 20), dlen as u32);
+        if !e.encrypted {
+            assert_eq!(le32(b, p + 24), dlen as u32);
+        }
+        assert_eq!(le16(b, p + 28) as usize, nlen);
+        assert_eq!(le16(b, p + 30) as usize, e.central_extra.len());
+        assert_eq!(le16(b, p + 32), 0);
+        assert_eq!(le32(b, p + 38) >> 16, e.mode);
+        assert_eq!(le32(b, p + 42) as usize, off[i]);
+        let mut k = 0;
+        while k < nlen {
+            assert_eq!(b[p + 46 + k], e.name[k]);
+            k += 1;
+        }
+        let mut k = 0;
+        while k < e.central_extra.len() {
+            assert_eq!(b[p + 46 + nlen + k], e.central_extra[k]);
+            k += 1;
+        }
+        p += 46 + nlen + e.central_extra.len();
+        i += 1;
+    }
+    let eocd = p;
+    assert_eq!(le32(b, eocd), SIG_EOCD);
+    assert_eq!(le16(b, eocd + 4), 0);
+    assert_eq!(le16(b, eocd + 6), 0);
+    assert_eq!(le16(b, eocd + 8) as usize, n);
+    assert_eq!(le16(b, eocd + 10) as usize, n);
+    assert_eq!(le32(b, eocd + 12) as usize, eocd - cd_at);
+    assert_eq!(le32(b, eocd + 16) as usize, cd_at);
+    assert_eq!(le16(b, eocd + 20) as usize, comment.len());
+    let mut k = 0;
+    while k < comment.len() {
+        assert_eq!(b[eocd + 22 + k], comment[k]);
+        k += 1;
+    }
+    assert_eq!(end, eocd + 22 + comment.len());
+}
+
+/// expect Ok, never drop an error value on a symbolic path
+macro_rules! ok {
+    ($e:expr, $msg:expr) => {
+        match $e {
+            Ok(v) => v,
+            Err(e) => {
+                core::mem::forget(e);
+                assert!(false, $msg);
+                return;
+            }
+        }
+    };
+}
+/// expect Err
+macro_rules! err {
+    ($e:expr, $msg:expr) => {
+        match $e {
+            Ok(v) => {
+                core::mem::forget(v);
+                assert!(false, $msg);
+                return;
+            }
+            Err(e) => {
+                core::mem::forget(e);
+            }
+        }
+    };
+}
+
+// =============================================================================================
+// C17: extra-data validation, unit level
+// =============================================================================================
+/// APPNOTE 4.5.2 / 4.6.1 registered header IDs (typed from the specification, independent of
+/// the crate's table) - these and everything <= 31 are reserved.
+const APPNOTE_IDS: [u16; 49] = [
+    0x0001, 0x0007, 0x0008, 0x0009, 0x000a, 0x000c, 0x000d, 0x000e, 0x000f, 0x0014, 0x0015, 0x0016, 0x0017, 0x0018, 0x0019,
+    0x0020, 0x0021, 0x0022, 0x0023, 0x0065, 0x0066, 0x4690, 0x07c8, 0x2605, 0x2705, 0x2805, 0x334d, 0x4341, 0x4453, 0x4704,
+    0x470f, 0x4b46, 0x4c41, 0x4d49, 0x4f4c, 0x5356, 0x5455, 0x554e, 0x5855, 0x6375, 0x6542, 0x7075, 0x756e, 0x7855, 0xa11e,
+    0xa220, 0xfd4a, 0x9901, 0x9902,
+];
+fn ref_id_reserved(id: u16) -> bool {
+    if id <= 31 {
+        return true;
+    }
+    let mut i = 0;
+    while i < 49 {
+        if APPNOTE_IDS[i] == id {
+            return true;
+        }
+        i += 1;
+    }
+    false
+}
+/// reference validity of a caller-supplied extra-data block: a sequence of (id, size, body)
+/// records, none truncated, no reserved id
+fn ref_extra_valid(x: &[u8]) -> bool {
+    let mut p = 0;
+    while p < x.len() {
+        if x.len() - p < 4 {
+            return false;
+        }
+        let id = le16(x, p);
+        let sz = le16(x, p + 2) as usize;
+        if ref_id_reserved(id) {
+            return false;
+        }
+        if sz > x.len() - p - 4 {
+            return false;
+        }
+        p += 4 + sz;
+    }
+    true
+}
+
+macro_rules! c17_validate {
+    ($name:ident, $n:expr) => {
+        #[kani::proof]
+        #[kani::unwind(51)]
+        #[kani::stub(alloc::fmt::format, crate::verif_kit::stub_format)]
+        fn $name() {
+            const N: usize = $n;
+            let x: [u8; N] = kani::any();
+            let mut f = any_zfd(ascii1(), x.to_vec());
+            f.large_file = kani::any();
+            let r = validate_extra_data(&f);
+            let want = ref_extra_valid(&x);
+            match r {
+                Ok(()) => {
+                    assert!(want, "reserved/truncated extra data accepted");
+                    kani::cover!(true);
+                }
+                Err(e) => {
+                    core::mem::forget(e);
+                    assert!(!want, "well-formed unreserved extra data rejected");
+                    kani::cover!(N >= 4 && le16(&x, 0) == 0x0001);
+                    kani::cover!(N >= 4 && le16(&x, 0) > 31 && le16(&x, 0) != 0x0001);
+                }
+            }
+            core::mem::forget(f);
+        }
+    };
+}
+/// C17 extra-data validation over EVERY 5-byte block: accepted iff it is a sequence of complete
+/// records none of which uses the ZIP64 id, an id <= 31 or an APPNOTE-registered id (list typed
+/// from the specification).
+// @h prop=C17,C12 tier=quick t=900 mem=10 name=c17_validate_extra_5
+c17_validate!(c17_validate_extra_5, 5);
+/// C17 extra-data validation over every 9-byte block (two records / truncated second header).
+// @h prop=C17,C12 tier=quick t=1200 mem=12 name=c17_validate_extra_9
+c17_validate!(c17_validate_extra_9, 9);
+/// C17 extra-data validation over every 3-byte block (always an incomplete header).
+// @h prop=C17 tier=quick t=600 mem=8 name=c17_validate_extra_3
+c17_validate!(c17_validate_extra_3, 3);
+
+// =============================================================================================
+// API-level call sequences (C01, C12, C17): concrete call order, symbolic parameters
+// =============================================================================================
+macro_rules! api_harness {
+    ($name:ident, $unwind:expr, $body:block) => {
+        #[kani::proof]
+        #[kani::unwind($unwind)]
+        #[kani::stub(time::OffsetDateTime::now_utc, crate::verif_kit::stub_now_utc)]
+        #[kani::stub(crc32fast::Hasher::internal_new_specialized, crate::verif_kit::stub_crc_specialized)]
+        #[kani::stub(alloc::fmt::format, crate::verif_kit::stub_format)]
+        fn $name() $body
+    };
+}
+
+fn sym_opts() -> (FileOptions, u16, u16, u32) {
+    let date: u16 = kani::any();
+    let time: u16 = kani::any();
+    let perm: u32 = kani::any();
+    (opts(perm, DateTime::from_msdos(date, time), false), date, time, perm & 0o777)
+}
+
+/// C12/C01: write before any file -> Err; then a directory; write after the directory -> Err;
+/// end_extra_data without extra data -> Err; then a file with 1 byte; finish. The archive holds
+/// exactly the directory ("d/" - slash appended, S_IFDIR|perm, empty) and the file with exactly
+/// the byte whose write succeeded.
+// @h prop=C12,C01 tier=quick t=1800 mem=24
+api_harness!(c12_misuse_then_dir_and_file, 10, {
+    let mut sink = Sink::<192>::new();
+    let mut w = ZipWriter::new(sink.handle());
+    let d0: u8 = kani::any();
+    err!(w.write(&[d0]), "write before any file was accepted");
+    let (o1, date1, time1, perm1) = sym_opts();
+    ok!(w.add_directory("d", o1), "add_directory failed");
+    err!(w.write(&[d0]), "write after a directory was accepted");
+    err!(w.end_extra_data(), "end_extra_data without extra data was accepted");
+    let (o2, date2, time2, perm2) = sym_opts();
+    let nm = ascii1();
+    let nb = [nm.as_bytes()[0]];
+    ok!(w.start_file(nm, o2), "start_file failed");
+    match w.write(&[d0]) {
+        Ok(n) => assert_eq!(n, 1),
+        Err(e) => {
+            core::mem::forget(e);
+            assert!(false, "write into a started file failed");
+        }
+    }
+    ok!(w.finish(), "finish failed");
+    core::mem::forget(w);
+    assert!(!sink.overflow);
+    let exp = [
+        Exp { name: b"d/", content: &[], local_extra: &[], central_extra: &[], large: false, date: date1, time: time1, mode: 0o040000 | perm1, encrypted: false },
+        Exp { name: &nb, content: &[d0], local_extra: &[], central_extra: &[], large: false, date: date2, time: time2, mode: 0o100000 | perm2, encrypted: false },
+    ];
+    judge_archive(&sink.buf, 0, sink.end, &exp, &[]);
+    kani::cover!(sink.end > 100);
+});
+
+/// C12: calls after finish: write, start_file, add_directory, end_extra_data and a second
+/// finish all return errors (no panic) and the finished archive (one empty file) is unchanged.
+// @h prop=C12 tier=quick t=1800 mem=24
+api_harness!(c12_calls_after_finish, 10, {
+    let mut sink = Sink::<128>::new();
+    let mut w = ZipWriter::new(sink.handle());
+    let (o1, date1, time1, perm1) = sym_opts();
+    ok!(w.start_file("a", o1), "start_file failed");
+    ok!(w.finish(), "finish failed");
+    let end = sink.end;
+    let d0: u8 = kani::any();
+    err!(w.write(&[d0]), "write after finish accepted");
+    let (o2, _, _, _) = sym_opts();
+    err!(w.start_file("b", o2), "start_file after finish accepted");
+    err!(w.add_directory("c", o2), "add_directory after finish accepted");
+    err!(w.end_extra_data(), "end_extra_data after finish accepted");
+    err!(w.finish(), "second finish accepted");
+    core::mem::forget(w);
+    assert_eq!(sink.end, end);
+    let exp = [Exp { name: b"a", content: &[], local_extra: &[], central_extra: &[], large: false, date: date1, time: time1, mode: 0o100000 | perm1, encrypted: false }];
+    judge_archive(&sink.buf, 0, sink.end, &exp, &[]);
+    kani::cover!(true);
+});
+
+/// C12: a new entry implicitly closes the previous one: start_file(a)+1 byte, start_file(b)+2
+/// bytes (two writes), finish: both entries hold exactly their bytes, CRCs and sizes patched.
+// @h prop=C12,C01,C09 tier=quick t=1800 mem=24
+api_harness!(c12_implicit_close_two_files, 10, {
+    let mut sink = Sink::<192>::new();
+    let mut w = ZipWriter::new(sink.handle());
+    let d: [u8; 3] = kani::any();
+    let (o1, date1, time1, perm1) = sym_opts();
+    let (o2, date2, time2, perm2) = sym_opts();
+    ok!(w.start_file("a", o1), "start_file a failed");
+    ok!(w.write_all(&d[..1]), "write failed");
+    ok!(w.start_file("b", o2), "start_file b failed");
+    ok!(w.write_all(&d[1..2]), "write failed");
+    ok!(w.write_all(&d[2..3]), "write failed");
+    ok!(w.finish(), "finish failed");
+    core::mem::forget(w);
+    let exp = [
+        Exp { name: b"a", content: &d[..1], local_extra: &[], central_extra: &[], large: false, date: date1, time: time1, mode: 0o100000 | perm1, encrypted: false },
+        Exp { name: b"b", content: &d[1..3], local_extra: &[], central_extra: &[], large: false, date: date2, time: time2, mode: 0o100000 | perm2, encrypted: false },
+    ];
+    judge_archive(&sink.buf, 0, sink.end, &exp, &[]);
+    kani::cover!(true);
+});
+
+/// C01: symlink entry: name, target stored as content, S_IFLNK|perm; write after it -> Err;
+/// archive comment kept.
+// @h prop=C01,C12 tier=quick t=1800 mem=24
+api_harness!(c01_symlink_and_comment, 10, {
+    let mut sink = Sink::<128>::new();
+    let mut w = ZipWriter::new(sink.handle());
+    let cm: [u8; 2] = kani::any();
+    w.set_raw_comment(cm.to_vec());
+    let (o1, date1, time1, perm1) = sym_opts();
+    let t = ascii1();
+    let tb = [t.as_bytes()[0]];
+    ok!(w.add_symlink("s", t, o1), "add_symlink failed");
+    err!(w.write(&[1u8]), "write after a symlink was accepted");
+    ok!(w.finish(), "finish failed");
+    core::mem::forget(w);
+    let exp = [Exp { name: b"s", content: &tb, local_extra: &[], central_extra: &[], large: false, date: date1, time: time1, mode: 0o120000 | perm1, encrypted: false }];
+    judge_archive(&sink.buf, 0, sink.end, &exp, &cm);
+    kani::cover!(true);
+});
+
+/// C12: an unsupported compression method is refused by start_file with an error (no panic);
+/// whatever the writer's state afterwards, a later finish() either fails or yields an archive
+/// that does not contain the refused entry.
+// @h prop=C12 tier=quick t=1800 mem=24
+api_harness!(c12_unsupported_method_refused, 10, {
+    let mut sink = Sink::<128>::new();
+    let mut w = ZipWriter::new(sink.handle());
+    let m: u16 = kani::any();
+    kani::assume(m != 0);
+    #[allow(deprecated)]
+    let method = CompressionMethod::from_u16(m);
+    let (o1, _, _, _) = sym_opts();
+    err!(w.start_file("a", o1.compression_method(method)), "unsupported method accepted");
+    match w.finish() {
+        Ok(_) => {
+            // finished archive must be the empty archive
+            assert_eq!(sink.end, 22);
+            assert_eq!(le32(&sink.buf, 0), SIG_EOCD);
+            assert_eq!(le16(&sink.buf, 10), 0);
+        }
+        Err(e) => {
+            core::mem::forget(e);
+        }
+    }
+    kani::cover!(m == 99);
+    kani::cover!(m == 8);
+    core::mem::forget(w);
+});
+
+/// C17/C12: extra data through the extra-data calls, shared variant: start_file_with_extra_data,
+/// one record (symbolic unreserved id, 1-byte body) written through Write, end_extra_data
+/// (returns the final data start), 1 content byte, finish: the record is stored verbatim in BOTH
+/// the local header and the central record, lengths patched, data starts where reported.
+// @h prop=C17,C12 tier=quick t=1800 mem=24
+api_harness!(c17_extra_shared, 51, {
+    let mut sink = Sink::<160>::new();
+    let mut w = ZipWriter::new(sink.handle());
+    let (o1, date1, time1, perm1) = sym_opts();
+    let id: u16 = kani::any();
+    kani::assume(!ref_id_reserved(id));
+    let body: u8 = kani::any();
+    let rec = [id as u8, (id >> 8) as u8, 1, 0, body];
+    let d0: u8 = kani::any();
+    let pre = ok!(w.start_file_with_extra_data("a", o1), "start_file_with_extra_data failed");
+    assert_eq!(pre, 31);
+    ok!(w.write_all(&rec), "writing extra data failed");
+    let ds = ok!(w.end_extra_data(), "end_extra_data failed on an unreserved complete record");
+    assert_eq!(ds, 31 + 5);
+    ok!(w.write_all(&[d0]), "write failed");
+    ok!(w.finish(), "finish failed");
+    core::mem::forget(w);
+    let exp = [Exp { name: b"a", content: &[d0], local_extra: &rec, central_extra: &rec, large: false, date: date1, time: time1, mode: 0o100000 | perm1, encrypted: false }];
+    judge_archive(&sink.buf, 0, sink.end, &exp, &[]);
+    kani::cover!(id == 0xbeef);
+});
+
+/// C17: local-only + central-only extra data: local record before
+/// end_local_start_central_extra_data appears only in the local header, the central record
+/// only in the central directory.
+// @h prop=C17,C12 tier=quick t=1800 mem=24
+api_harness!(c17_extra_local_and_central, 51, {
+    let mut sink = Sink::<160>::new();
+    let mut w = ZipWriter::new(sink.handle());
+    let (o1, date1, time1, perm1) = sym_opts();
+    let id1: u16 = kani::any();
+    let id2: u16 = kani::any();
+    kani::assume(!ref_id_reserved(id1) && !ref_id_reserved(id2));
+    let b1: u8 = kani::any();
+    let b2: [u8; 2] = kani::any();
+    let lrec = [id1 as u8, (id1 >> 8) as u8, 1, 0, b1];
+    let crec = [id2 as u8, (id2 >> 8) as u8, 2, 0, b2[0], b2[1]];
+    let d0: u8 = kani::any();
+    ok!(w.start_file_with_extra_data("a", o1), "start_file_with_extra_data failed");
+    ok!(w.write_all(&lrec), "writing extra data failed");
+    let ds = ok!(w.end_local_start_central_extra_data(), "end_local_start_central_extra_data failed");
+    assert_eq!(ds, 31 + 5);
+    ok!(w.write_all(&crec), "writing extra data failed");
+    let ds2 = ok!(w.end_extra_data(), "end_extra_data failed");
+    assert_eq!(ds2, 31 + 5);
+    ok!(w.write_all(&[d0]), "write failed");
+    ok!(w.finish(), "finish failed");
+    core::mem::forget(w);
+    let exp = [Exp { name: b"a", content: &[d0], local_extra: &lrec, central_extra: &crec, large: false, date: date1, time: time1, mode: 0o100000 | perm1, encrypted: false }];
+    judge_archive(&sink.buf, 0, sink.end, &exp, &[]);
+    kani::cover!(true);
+});
+
+/// C17/C12: reserved or malformed extra data is refused by end_extra_data with an error: one
+/// record with a symbolic id (reserved) or a truncated body.
+// @h prop=C17,C12 tier=quick t=1800 mem=24
+api_harness!(c17_extra_reserved_refused, 51, {
+    let mut sink = Sink::<160>::new();
+    let mut w = ZipWriter::new(sink.handle());
+    let (o1, _, _, _) = sym_opts();
+    let id: u16 = kani::any();
+    let sz: u16 = kani::any();
+    let body: u8 = kani::any();
+    kani::assume(ref_id_reserved(id) || sz > 1);
+    let rec = [id as u8, (id >> 8) as u8, sz as u8, (sz >> 8) as u8, body];
+    ok!(w.start_file_with_extra_data("a", o1), "start_file_with_extra_data failed");
+    ok!(w.write_all(&rec), "writing extra data failed");
+    err!(w.end_extra_data(), "reserved/truncated extra data accepted");
+    kani::cover!(id == 1);
+    kani::cover!(id == 0xbeef && sz == 2);
+    core::mem::forget(w);
+});
